@@ -148,6 +148,15 @@ def visible (d : Json) : String := (d.setObjVal! "pn" Json.null).compress
 
 def versionOf (d : Json) : Int := optInt d "v"
 
+/-- the findings of this property the orchestrator lists as still open (`"open": [...]` is appended
+to every line by ./check from KNOWN_FINDINGS.jsonl). A case showing the old signature of F10, F20,
+F21 or F22 is attributed to that finding only while it is open; once a finding is marked fixed the
+same signature is an ordinary violation (the defect has come back). No list at all = all fixed. -/
+def openOf (j : Json) : List String :=
+  match j.getObjVal? "open" with
+  | .ok v => (strList v).toOption.getD []
+  | .error _ => []
+
 structure Acc where
   agree : Bool := true
   firstDisagree : Option Nat := none
@@ -159,12 +168,12 @@ def Acc.disagree (a : Acc) (i : Nat) : Acc :=
 def Acc.add (a : Acc) (v : String) : Acc := if a.viol.contains v then a else { a with viol := a.viol ++ [v] }
 
 /-- round trip and migration: judged on the real objects' queries only -/
-def judgeReload (kind : String) (ver : Nat) (ops : Array Json) (stepErrs : Array String) (impl : Json) (a : Acc) : R Acc := do
+def judgeReload (openF : List String) (kind : String) (ver : Nat) (ops : Array Json) (stepErrs : Array String) (impl : Json) (a : Acc) : R Acc := do
   let final ← field impl "final"
   let rtErr := optStr impl "rt_err"
   let mut a := a
   if rtErr != "" then
-    -- F22: an accepted RemoveHook with an invalid stage makes the object unserializable
+    -- F22 (while open): an accepted RemoveHook with an invalid stage makes the object unserializable
     let mut explained := false
     for i in [0:ops.size] do
       let o := ops[i]!
@@ -173,15 +182,15 @@ def judgeReload (kind : String) (ver : Nat) (ops : Array Json) (stepErrs : Array
           | some (.arr a) => a.toList.map (fun (s : Json) => (s.getInt?.toOption).getD 0)
           | _ => []
         if stages.any (fun s => s != 0 && s != 1) then explained := true
-    a := a.add (if explained && rtErr.startsWith "marshal" then "F22" else "?rt_err")
+    a := a.add (if openF.contains "F22" && explained && rtErr.startsWith "marshal" then "F22" else "?rt_err")
     return a
   match optF impl "rt" with
   | none => a := a.add "?rt-missing"
   | some rt =>
     if rt.compress != final.compress then
-      -- F20: a reloaded v01 root has lost its version number
+      -- F20 (while open): a reloaded v01 root has lost its version number
       let patched := rt.setObjVal! "v" (final.getObjValD "v")
-      if kind == "root" && ver == 1 && patched.compress == final.compress && versionOf rt == 0 then a := a.add "F20"
+      if openF.contains "F20" && kind == "root" && ver == 1 && patched.compress == final.compress && versionOf rt == 0 then a := a.add "F20"
       else a := a.add "?roundtrip"
   if ver == 1 then
     for k in ["mig", "mig_rt"] do
@@ -210,6 +219,9 @@ def handleTargets (j inp impl : Json) (ver : Ver) (verN : Nat) : R Json := do
   if ops.size != steps.size then throw "ops/steps length mismatch"
   let initJ ← field impl "init"
   let init ← parseT initJ
+  let openF := openOf j
+  -- which code the model describes: the repaired one, unless F10 is still listed as open
+  let f10 := openF.contains "F10"
   let mut model := TargetsMeta.new
   let mut prev := init
   let mut prevJ := initJ
@@ -226,7 +238,7 @@ def handleTargets (j inp impl : Json) (ver : Ver) (verN : Nat) : R Json := do
     let cur ← if changed then parseT curJ else pure prev
     match ← parseTOp ops[i]! with
     | some op =>
-      let res := model.apply ver op
+      let res := if f10 then model.applyF10 ver op else model.apply ver op
       model := res.st
       if errStr res.err != e || canonT model != canonT cur then a := a.disagree i
       if e == "ok" && changed then a := { a with nontrivial := true }
@@ -234,13 +246,13 @@ def handleTargets (j inp impl : Json) (ver : Ver) (verN : Nat) : R Json := do
       if canonT model != canonT cur then a := a.disagree i
     -- the property on what the implementation produced
     if !metaInvB cur then
-      -- F10: exactly the state the model (with the list-length comparison) predicts, and the
-      -- only thing wrong is a threshold above the number of distinct principals
-      if metaStructB cur && canonT model == canonT cur then a := a.add "F10" else a := a.add s!"?inv@{i}"
+      -- F10 (while open): exactly the state the model of the old code (list-length comparison)
+      -- predicts, and the only thing wrong is a threshold above the number of distinct principals
+      if f10 && metaStructB cur && canonT model == canonT cur then a := a.add "F10" else a := a.add s!"?inv@{i}"
     if e != "ok" && changed && visible curJ != visible prevJ then a := a.add s!"?refused-changed@{i}"
     prev := cur
     prevJ := curJ
-  a ← judgeReload "targets" verN ops errs impl a
+  a ← judgeReload openF "targets" verN ops errs impl a
   finish j a ops.size
 
 def handleRoot (j inp impl : Json) (ver : Ver) (verN : Nat) : R Json := do
@@ -249,6 +261,7 @@ def handleRoot (j inp impl : Json) (ver : Ver) (verN : Nat) : R Json := do
   if ops.size != steps.size then throw "ops/steps length mismatch"
   let initJ ← field impl "init"
   let init ← parseRoot initJ
+  let openF := openOf j
   let mut model := RootMeta.new
   let mut prev := init
   let mut prevJ := initJ
@@ -273,12 +286,12 @@ def handleRoot (j inp impl : Json) (ver : Ver) (verN : Nat) : R Json := do
       if canonR model != canonR cur then a := a.disagree i
     if !rootInvB cur then a := a.add s!"?inv@{i}"
     if e != "ok" && changed then
-      -- F21: AddHook refused (invalid stage / duplicate name in a later stage) after the hook
-      -- was already stored for the earlier stages
-      if optStr ops[i]! "op" == "XAddHook" then a := a.add "F21" else a := a.add s!"?refused-changed@{i}"
+      -- F21 (while open): AddHook refused (invalid stage / duplicate name in a later stage) after
+      -- the hook was already stored for the earlier stages
+      if openF.contains "F21" && optStr ops[i]! "op" == "XAddHook" then a := a.add "F21" else a := a.add s!"?refused-changed@{i}"
     prev := cur
     prevJ := curJ
-  a ← judgeReload "root" verN ops errs impl a
+  a ← judgeReload openF "root" verN ops errs impl a
   finish j a ops.size
 
 def handle (j : Json) : R Json := do
